@@ -138,7 +138,7 @@ class Job:
         return rep.result()
 
 
-def run_native(recipe, args=None, timeout=600):
+def run_native(recipe, args=None, timeout=150, hang_is_failure=True):
     """Run a native replay recipe with /venv/bin/python against /repo; returns its JSON verdict."""
     import json
     import os
@@ -153,6 +153,8 @@ def run_native(recipe, args=None, timeout=600):
             return json.loads(line[-1])
         return {'reproduced': False, 'error': (p.stderr or p.stdout)[-400:]}
     except subprocess.TimeoutExpired:
+        if hang_is_failure:
+            return {'reproduced': True, 'detail': f'native replay of recipe {recipe} did not terminate within {timeout}s (it finishes in seconds on the pinned tree)'}
         return {'reproduced': False, 'error': 'native replay timed out'}
 
 
